@@ -151,6 +151,12 @@ func (sj *SemiJoin) Transform() Query {
 
 func (sj *SemiJoin) optimize(mode Mode, req Require) (Cost, Cost, any) {
 	fwdFix, fwdVar, fwdApp := sj.optForward(mode, req)
+	if sj.fastSingle() && fwdFix+fwdVar < impossible {
+		// the Require is cleared for a fast single (see optimize in query.go)
+		// so source2 is not set up for the Select/Lookup values that still
+		// arrive, which reverse would pass on to it
+		return fwdFix, fwdVar, fwdApp
+	}
 	revFix, revVar, revApp := sj.optReverse(mode, req)
 	if revFix+revVar < fwdFix+fwdVar {
 		return revFix, revVar, revApp
